@@ -100,8 +100,8 @@ theorem resetStart_pend {ap : Api} (c : Cfg) (s : St) (n : AfterReset) (k : List
     BlockedFor ap (resetStart c s n k retK) := by
   unfold resetStart
   split
-  · exact startDo_pend _ _ _ _ _ _ _ _ hd (fun s' _ h => afterReset_pend _ _ _ _ h hR)
-      (fun _ s' h => afterReset_pend _ _ _ _ h hR)
+  · exact startDo_pend _ _ _ _ _ _ _ _ hd (fun s' _ h => afterReset_pend _ _ _ _ (by simpa [Pend] using h) hR)
+      (fun _ s' h => afterReset_pend _ _ _ _ (by simpa [Pend] using h) hR)
   · exact afterReset_pend _ _ _ _ hd hR
 
 theorem commitSetup_pend (s : St) (a : SetupArgs) (p : Proto) (ch : Nat) (hd : Pend ap s) :
@@ -215,7 +215,7 @@ theorem frameRet_pend {ap : Api} (c : Cfg) (f : Fr) (k : List Fr) (retK : St →
     all_goals first
       | exact hR _ _ hd
       | exact setupStart_pend _ _ _ _ _ hd hR
-  | resetK n => exact afterReset_pend _ _ _ _ hd hR
+  | resetK n saved => exact afterReset_pend _ _ _ _ (by simpa [Pend] using hd) hR
 
 
 end Rtsp.ClientSm
